@@ -1282,6 +1282,7 @@ func checkPutSyncedTo(c *Ctx, ps *ssa.Function) {
 		bad := p.mustPassToSuccess(ps, nil, viaHelpers(w, isCallNamed(w), true), nil)
 		c.Check("C15-R3", "success-writes:"+w, ps.Pos(), bad == nil, "PutSyncedTo can succeed without "+w)
 	}
+	checkStampWriteUnconditional(c, "C15-R3")
 	for _, f := range parts {
 		for _, call := range callsNamed(f, "addBlockHash") {
 			okA := lin(call.Call.Args[1]) == H+" +0"
